@@ -39,6 +39,35 @@ CAL_BODIES = {
     "TRUNC": ics("uid-9", "trunc")[:-16],
 }
 
+TZ_BLOCK = "\r\n".join([
+    "BEGIN:VTIMEZONE", "TZID:Europe/Paris", "BEGIN:STANDARD", "DTSTART:19701025T030000",
+    "TZOFFSETFROM:+0200", "TZOFFSETTO:+0100", "TZNAME:CET", "END:STANDARD", "END:VTIMEZONE"])
+
+
+def ics_tz_first(uid, summary="tz"):
+    """An object whose first component is a VTIMEZONE (no UID); the UID is in the second."""
+    return ("BEGIN:VCALENDAR\r\nVERSION:2.0\r\nPRODID:-//xv//EN\r\n" + TZ_BLOCK + "\r\nBEGIN:VEVENT\r\nUID:%s\r\nDTSTAMP:20200101T000000Z\r\n"
+            "DTSTART;TZID=Europe/Paris:20200101T100000\r\nSUMMARY:%s\r\nEND:VEVENT\r\nEND:VCALENDAR\r\n" % (uid, summary)).encode("utf-8")
+
+
+def ics_no_uid(summary="nouid"):
+    return ("BEGIN:VCALENDAR\r\nVERSION:2.0\r\nPRODID:-//xv//EN\r\nBEGIN:VEVENT\r\nDTSTAMP:20200101T000000Z\r\n"
+            "DTSTART:20200101T100000Z\r\nSUMMARY:%s\r\nEND:VEVENT\r\nEND:VCALENDAR\r\n" % summary).encode("utf-8")
+
+
+# UID alphabet for C06: case, space, escaped comma, VTIMEZONE-first, no UID
+UID_BODIES = {
+    "U1a": ics("u1", "one"),
+    "U1b": ics("u1", "uno"),
+    "UC": ics("U1", "upper"),
+    "USP": ics("u 1", "space"),
+    "UESC": ics("u\\,1", "escaped"),
+    "U2": ics("u2", "two"),
+    "TZ1": ics_tz_first("u1", "tzfirst"),
+    "NOUID": ics_no_uid(),
+    "NOUID2": ics_no_uid("nouid2"),
+}
+
 CARD_BODIES = {
     "K": vcf("card-1", "Jo Doe"),
     "K2": vcf("card-1", "Jo Dof"),
@@ -49,6 +78,7 @@ CARD_BODIES = {
 ALL_BODIES = {}
 ALL_BODIES.update(CAL_BODIES)
 ALL_BODIES.update(CARD_BODIES)
+ALL_BODIES.update(UID_BODIES)
 
 CT_ICS = "text/calendar; charset=utf-8"
 CT_VCF = "text/vcard; charset=utf-8"
@@ -63,4 +93,4 @@ def content_type_for(name):
 
 
 def ct_for_body(bid):
-    return CT_ICS if bid in CAL_BODIES else CT_VCF
+    return CT_VCF if bid in CARD_BODIES else CT_ICS
